@@ -193,8 +193,14 @@ fn uppercase(cu: u32) -> u32 {
 
 // Add all folded characters in the given interval to the given code point set.
 // This skips characters which fold to themselves.
+#[cfg(test)]
 fn fold_interval(iv: Interval, recv: &mut CodePointSet) {
-    let overlaps = FOLDS.equal_range_by(|tr| {
+    fold_interval_in(&FOLDS, iv, recv)
+}
+
+// Like fold_interval, but with the given table (FOLDS for Unicode mode, TO_UPPERCASE for legacy mode).
+fn fold_interval_in(table: &[FoldRange], iv: Interval, recv: &mut CodePointSet) {
+    let overlaps = table.equal_range_by(|tr| {
         if tr.first() > iv.last {
             Ordering::Greater
         } else if tr.last() < iv.first {
@@ -203,7 +209,7 @@ fn fold_interval(iv: Interval, recv: &mut CodePointSet) {
             Ordering::Equal
         }
     });
-    for fr in &FOLDS[overlaps] {
+    for fr in &table[overlaps] {
         debug_assert!(
             fr.transformed_from().overlaps(iv),
             "Interval does not overlap transform"
@@ -238,10 +244,10 @@ fn fold_interval(iv: Interval, recv: &mut CodePointSet) {
 
 /// Find all characters that fold into the given interval and add them to the given code point set.
 /// This skips characters which fold to themselves.
-fn unfold_interval(iv: Interval, recv: &mut CodePointSet) {
+fn unfold_interval_in(table: &[FoldRange], iv: Interval, recv: &mut CodePointSet) {
     // Note: We still need to check all ranges because the relationship between
     // transformed_from and transformed_to intervals can be complex
-    for tr in FOLDS.iter() {
+    for tr in table.iter() {
         if !iv.overlaps(tr.transformed_to()) {
             continue;
         }
@@ -335,16 +341,23 @@ pub(crate) fn expand_code_point(c: u32, icase: bool, unicode: bool) -> Vec<u32> 
 }
 
 // Fold every character in \p input, then find all the prefolds.
-pub fn add_icase_code_points(mut input: CodePointSet) -> CodePointSet {
+pub fn add_icase_code_points(input: CodePointSet) -> CodePointSet {
+    add_icase_code_points_for(input, true)
+}
+
+// Close \p input under the Canonicalize equivalence of the given mode: simple case folding
+// in Unicode mode, upper-casing in legacy mode (the same relation literals use).
+pub(crate) fn add_icase_code_points_for(mut input: CodePointSet, unicode: bool) -> CodePointSet {
+    let table: &[FoldRange] = if unicode { &FOLDS } else { &TO_UPPERCASE };
     let mut folded = input.clone();
     for iv in input.intervals() {
-        fold_interval(*iv, &mut folded)
+        fold_interval_in(table, *iv, &mut folded)
     }
 
     // Reuse input storage.
     input.clone_from(&folded);
     for iv in folded.intervals() {
-        unfold_interval(*iv, &mut input);
+        unfold_interval_in(table, *iv, &mut input);
     }
     input
 }
